@@ -151,6 +151,7 @@ def run_mutant(args):
             res["status"] = "extraction-failed"
             return res
         caught = {}
+        known = {k["key"] for k in engine.load_known() if k.get("status") == "known"}
         for pr in sorted(p for p in props.PROPS if p.startswith("C")):
             ctx = engine.Ctx(pr, crates)
             R = roles_mod.Roles(ctx)
@@ -159,7 +160,7 @@ def run_mutant(args):
             except Exception as e:
                 caught[pr] = ["CRASH:%r" % (e,)]
                 continue
-            v = [o for o in ctx.obl if o["status"] == "violation"]
+            v = [o for o in ctx.obl if o["status"] == "violation" and o["key"] not in known]
             if v:
                 caught[pr] = sorted({o["rule"] for o in v})
         res["status"] = "survivor-caught" if caught else "survivor-MISSED"
